@@ -2,9 +2,11 @@ package c17
 
 import (
 	"bytes"
+	"encoding"
 	"encoding/json"
 	"errors"
 	"fmt"
+	"reflect"
 	"strings"
 	"time"
 
@@ -460,6 +462,24 @@ func (h *hist) lease(content []byte) *buffer {
 	return b
 }
 
+// sqlScanner is database/sql.Scanner.
+type sqlScanner interface{ Scan(src interface{}) error }
+
+// ptr returns the pointer to the receiver of a type.
+func (h *hist) ptr(ty int) interface{} {
+	switch ty {
+	case TDate:
+		return &h.d
+	case TRoman:
+		return &h.n
+	case TSem:
+		return &h.v
+	case TSize:
+		return &h.s
+	}
+	return &h.id
+}
+
 var scanZone = time.FixedZone("vsim+0530", 5*3600+1800)
 
 // opCall: one Unmarshal*/Scan call on a receiver.
@@ -480,11 +500,25 @@ func (h *hist) opCall() {
 			entry = EUnmarshalText
 		}
 	}
+	// entry points an edited tree may have grown: Scan or UnmarshalBinary on a type that has
+	// none today (found at run time; nothing is drawn from the tape when there is none)
+	if ty != TDate && !h.clean {
+		_, hasScan := h.ptr(ty).(sqlScanner)
+		_, hasBin := h.ptr(ty).(encoding.BinaryUnmarshaler)
+		if (hasScan || hasBin) && t.Bool(1, 3) {
+			if hasScan && (!hasBin || t.Bool(1, 2)) {
+				entry = EScan
+			} else {
+				entry = EUnmarshalBinary
+			}
+			h.res.Probes.Inc("new_entry_point_called")
+		}
+	}
 	fault := h.pickFault()
 	input := h.readRecord(ty, fault, rec)
 	stub := 0
 	if !h.clean && (entry == EUnmarshalText || entry == EUnmarshalJSON) && t.Bool(1, 6) {
-		stub = 1 + t.Choose(3) // 1 = (garbage, error), 2 = (value, nil), 3 = (a value no default parser would produce, nil)
+		stub = 1 + t.Choose(4) // 1 = (garbage, error), 2 = (value, nil), 3 = (a value no default parser would produce, nil), 4 = the seam panics
 	}
 	var scanSrc interface{}
 	scanKind := 0
@@ -492,6 +526,9 @@ func (h *hist) opCall() {
 		scanKind = t.Choose(14)
 		if h.clean {
 			scanKind = t.Choose(2)
+		}
+		if ty != TDate && t.Bool(2, 3) {
+			scanKind = 4 + t.Choose(2) // text, as string or as []byte: what a driver hands over for these types
 		}
 	}
 	if entry == EJSONStd {
@@ -587,9 +624,9 @@ func (h *hist) opCall() {
 		case EUnmarshalJSON:
 			err = h.s.UnmarshalJSON(data)
 		case EUnmarshalBinary:
-			err = h.d.UnmarshalBinary(data)
+			err = h.ptr(ty).(encoding.BinaryUnmarshaler).UnmarshalBinary(data)
 		case EScan:
-			err = h.d.Scan(scanSrc)
+			err = h.ptr(ty).(sqlScanner).Scan(scanSrc)
 		case EJSONStd:
 			switch ty {
 			case TDate:
@@ -648,7 +685,8 @@ func (h *hist) opCall() {
 		if scanKind == 5 {
 			twin = string(preIn)
 		}
-		d2 := pre.(date.Date)
+		p2 := reflect.New(reflect.TypeOf(pre)) // a second receiver holding the pre-call value
+		p2.Elem().Set(reflect.ValueOf(pre))
 		var err2 error
 		twinPanicked := false
 		func() {
@@ -657,15 +695,16 @@ func (h *hist) opCall() {
 					twinPanicked = true
 				}
 			}()
-			err2 = d2.Scan(twin)
+			err2 = p2.Interface().(sqlScanner).Scan(twin)
 		}()
+		d2 := p2.Elem().Interface()
 		h.res.Probes.Inc("scan_text_both_types")
-		if !twinPanicked && ((err == nil) != (err2 == nil) || (err == nil && d2 != h.d)) {
+		if !twinPanicked && ((err == nil) != (err2 == nil) || (err == nil && d2 != h.cur(ty))) {
 			e2 := ""
 			if err2 != nil {
 				e2 = err2.Error()
 			}
-			if h.violate("D-string-bytes-disagree", name, fmt.Sprintf("date.Scan on the text %q: as %T it gives (%s, %q), as %T it gives (%s, %q)", clip(preIn), scanSrc, showVal(h.d), errText, twin, showVal(d2), e2)) {
+			if h.violate("D-string-bytes-disagree", name, fmt.Sprintf("%s on the text %q: as %T it gives (%s, %q), as %T it gives (%s, %q)", name, clip(preIn), scanSrc, showVal(h.cur(ty)), errText, twin, showVal(d2), e2)) {
 				return
 			}
 		}
@@ -777,6 +816,24 @@ func (h *hist) installStub(ty, kind int, g uint64) {
 	var e error
 	if kind == 1 {
 		e = errInjected
+	}
+	if kind == 4 {
+		// a custom parser with a bug of its own: whatever the method does about the panic (let
+		// it pass, turn it into an error), the receiver is not its to change
+		boom := func() { panic("vsim: injected panic in the Parser seam") }
+		switch ty {
+		case TDate:
+			date.Parser = func([]byte, date.Rule) (date.Date, error) { boom(); return date.Date{}, nil }
+		case TRoman:
+			roman.Parser = func([]byte, roman.Rule) (roman.Number, error) { boom(); return 0, nil }
+		case TSem:
+			sem.Parser = func([]byte, sem.Rule) (sem.Ver, error) { boom(); return sem.Ver{}, nil }
+		case TSize:
+			size.Parser = func([]byte, size.Rule) (size.Size, error) { boom(); return 0, nil }
+		case TUU:
+			uu.Parser = func([]byte, uu.Rule) (uu.ID, error) { boom(); return uu.ID{}, nil }
+		}
+		return
 	}
 	if kind == 3 {
 		switch ty {
